@@ -1591,18 +1591,20 @@ def gen_c10_program(seed, start, count):
             nf = 0 if kind == 'unit' else rng.choice([0, 1, 2, 3, 4])
             fs = [rng.choice(pool) for _ in range(nf)]
             mode = rng.choice(['none', 'ignore', 'ignore', 'transparent'])
+            # the helper attribute's name also as a raw identifier (F34)
+            dbg = rng.choice(['debug', 'debug', 'debug', 'r#debug'])
             ign = [mode == 'ignore' and rng.random() < 0.5 for _ in range(nf)]
             tr = rng.randrange(nf) if (mode == 'transparent' and nf > 0) else None
             vals = [rng.choice(dom) for _, dom in fs]
             path = (lambda m: f'{m}::X::{vnames[v]}') if is_enum else (lambda m: f'{m}::X')
             name = vnames[v] if is_enum else 'X'
             if kind == 'named':
-                dv = name + ' { ' + ', '.join(('#[debug(ignore)] ' if ign[i] else '#[debug(transparent)] ' if tr == i else '') + ('' if is_enum else 'pub ') + f'{fnames[i]}: {t}' for i, (t, _) in enumerate(fs)) + ' }'
+                dv = name + ' { ' + ', '.join((f'#[{dbg}(ignore)] ' if ign[i] else f'#[{dbg}(transparent)] ' if tr == i else '') + ('' if is_enum else 'pub ') + f'{fnames[i]}: {t}' for i, (t, _) in enumerate(fs)) + ' }'
                 sv = name + ' { ' + ', '.join(('' if is_enum else 'pub ') + f'{fnames[i]}: {t}' for i, (t, _) in enumerate(fs) if not ign[i]) + ' }'
                 cd = lambda m: path(m) + ' { ' + ', '.join(f'{fnames[i]}: {x}' for i, x in enumerate(vals)) + ' }'
                 cs = lambda m: path(m) + ' { ' + ', '.join(f'{fnames[i]}: {x}' for i, x in enumerate(vals) if not ign[i]) + ' }'
             elif kind == 'tuple':
-                dv = name + '(' + ', '.join(('#[debug(ignore)] ' if ign[i] else '#[debug(transparent)] ' if tr == i else '') + ('' if is_enum else 'pub ') + t for i, (t, _) in enumerate(fs)) + ')'
+                dv = name + '(' + ', '.join((f'#[{dbg}(ignore)] ' if ign[i] else f'#[{dbg}(transparent)] ' if tr == i else '') + ('' if is_enum else 'pub ') + t for i, (t, _) in enumerate(fs)) + ')'
                 sv = name + '(' + ', '.join(('' if is_enum else 'pub ') + t for i, (t, _) in enumerate(fs) if not ign[i]) + ')'
                 cd = lambda m: path(m) + '(' + ', '.join(vals) + ')'
                 cs = lambda m: path(m) + '(' + ', '.join(x for i, x in enumerate(vals) if not ign[i]) + ')'
